@@ -1,5 +1,5 @@
 import XPathV.Lemmas.PathSem
-import XPathV.Theorems.C11
+import XPathV.Lemmas.C11Base
 import XPathV.Lemmas.RootedPlans
 /-!
 # C13 — absolute paths ignore the start node; relative paths compose with the context
